@@ -116,6 +116,7 @@ func c19(r *Report) {
 	c19Termination(r)
 	c19LibraryPanicGuards(r)
 	c19Audit3(r)
+	c19LockPairing(r)
 	// status lists do not recurse: a status list credential that itself carries a status is refused
 	r.Refuse(Refuse{ID: "C19.depth.statuslist-no-recursion", Fn: p.Func("vcr/revocation", "StatusList2021", "validate"),
 		Cond: CmpCheck("len(credentialStatus) > 0 / CredentialStatus != nil", token.EQL, FieldV("VerifiableCredential", "CredentialStatus"), NilV(), false)})
